@@ -156,6 +156,20 @@ def run_case(ck, desc):
                 if len(got2) != nt or any(not np.array_equal(gy, pp[i]) for i, (_, gy) in enumerate(got2)):
                     ck.violation("second-figure-carries-simulated-data", {"lines": len(got2), "expected": nt}, desc)
                 ck.count("second_plots_from_same_object")
+                # an overlay: the SAME Axes receives a second call (other stride, rescaled); the curves of
+                # the first call are still the ones that were drawn, the new ones are appended after them
+                first = [(gx.copy(), gy.copy()) for gx, gy in got]
+                with warnings.catch_warnings(), np.errstate(all="ignore"):
+                    warnings.simplefilter("ignore")
+                    ax_o = bp.plot_pseudopressure(res, every=max(1, nt // 3), rescale=True, ax=ax)
+                after = _lines(ax_o)
+                n_new = len(range(0, nt, max(1, nt // 3)))
+                if ax_o is not ax or len(after) != len(first) + n_new:
+                    ck.violation("overlay-appends-its-own-curves", {"lines_before": len(first), "lines_after": len(after), "expected_new": n_new, "same_axes": bool(ax_o is ax)}, desc)
+                elif any(not (np.array_equal(a[0], b[0]) and np.array_equal(a[1], b[1], equal_nan=True)) for a, b in zip(first, after)):
+                    k_ = next(i for i, (a, b) in enumerate(zip(first, after)) if not (np.array_equal(a[0], b[0]) and np.array_equal(a[1], b[1], equal_nan=True)))
+                    ck.violation("overlay-leaves-earlier-curves-untouched", {"curve": int(k_), "max_abs_change": float(np.nanmax(np.abs(after[k_][1] - first[k_][1])))}, desc)
+                ck.count("overlays_on_the_same_axes")
                 return bool(len(got) >= 1), {"lines": len(got), "every": desc["every"], "rescale": desc["rescale"]}
             # recovery factor / rate
             with warnings.catch_warnings(), np.errstate(all="ignore"):
